@@ -379,6 +379,13 @@ func (gang *Gang) getCreateTime() time.Time {
 	return gang.CreateTime
 }
 
+func (gang *Gang) getGangGroupId() string {
+	gang.lock.RLock()
+	defer gang.lock.RUnlock()
+
+	return gang.GangGroupId
+}
+
 func (gang *Gang) getGangGroup() []string {
 	gang.lock.RLock()
 	defer gang.lock.RUnlock()
